@@ -125,6 +125,86 @@ Definition cstep := Cond.step table ccond ceval cpayload capply unit unit (fun _
 
 Record fstate := { f_stack : list entry; f_mute : nat; f_scope : lscope; f_zone : str }.
 
+(* the reader's state while one file is being read: everything global, the file-local state, the lines so far (newest first) *)
+Definition rstate := (gstate * fstate * list placed)%type.
+
+(* one source item; [load_file] reads an included file (recursion is tied in [load]) *)
+Definition item_step (cfg : config) (load_file : nat -> gstate -> result (gstate * list placed)) (fid : nat)
+           (st : rstate) (it : item) : result rstate :=
+  let '(g, fs, acc) := st in
+  let active := currently_active (f_stack fs) in
+  match it with
+  | ICond d =>
+      let cs := {| st_sym := g_tab g; st_mute := f_mute fs; st_out := []; st_stack := f_stack fs |} in
+      do cs' <- cstep cs d;
+      Ok ({| g_tab := st_sym table unit cs'; g_zones := g_zones g; g_labels := g_labels g;
+             g_used := g_used g; g_region := g_region g |},
+          {| f_stack := st_stack table unit cs'; f_mute := st_mute table unit cs';
+             f_scope := f_scope fs; f_zone := f_zone fs |}, acc)
+  | ICreateZone n s e =>
+      if active then
+        do zs <- create_zone (c_addr_bits cfg) (g_zones g) s e n;
+        Ok ({| g_tab := g_tab g; g_zones := zs; g_labels := g_labels g; g_used := g_used g; g_region := g_region g |}, fs, acc)
+      else Ok st
+  | IInclude target =>
+      if active then
+        match target with
+        | None => Rejected                                   (* not found, or found in more than one directory *)
+        | Some t =>
+            if in_nat t (g_used g) then Rejected else      (* "assembly file included multiple times" *)
+            do r <- load_file t {| g_tab := g_tab g; g_zones := g_zones g; g_labels := g_labels g;
+                                   g_used := t :: g_used g; g_region := g_region g |};
+            (* the includer's own scope, zone, condition stack and mute counter are untouched *)
+            Ok (fst r, fs, rev (snd r) ++ acc)
+        end
+      else Ok st
+  | IStmt s =>
+      if negb active then Ok st else
+      (* zone of the line object: the current zone, or the zone named by .memzone / .org *)
+      let line_zone := match s with
+                       | SMemzone z => z
+                       | SOrg _ (Some z) => z
+                       | SOrg _ None => GLOBAL
+                       | _ => f_zone fs
+                       end in
+      match find_zone (g_zones g) line_zone with
+      | None => Rejected                                   (* unknown memory zone *)
+      | Some _ =>
+        let '(scope', zone', region') :=
+          match s with
+          | SLabel n => match label_kind n with
+                        | LkLocal => (f_scope fs, f_zone fs, g_region g)
+                        | _ => (ScLocal fid (g_region g), f_zone fs, S (g_region g))
+                        end
+          | SOrg _ _ | SMemzone _ => (ScFile fid, line_zone, g_region g)
+          | _ => (f_scope fs, f_zone fs, g_region g)
+          end in
+        let bad_name := match s with
+                        | SLabel n | SConst n _ => is_register_name cfg n
+                        | _ => false
+                        end in
+        if bad_name then Rejected else
+        do ls' <- match s with
+                  | SConst n e =>
+                      do v <- eval_in cfg (g_labels g) (f_scope fs) e;
+                      set_label (c_keywords cfg) (g_labels g) scope' n v
+                  | _ => Ok (g_labels g)
+                  end;
+        Ok ({| g_tab := g_tab g; g_zones := g_zones g; g_labels := ls'; g_used := g_used g; g_region := region' |},
+            {| f_stack := f_stack fs; f_mute := f_mute fs; f_scope := scope'; f_zone := zone' |},
+            {| p_stmt := s; p_scope := scope'; p_zone := line_zone; p_muted := negb (Nat.eqb (f_mute fs) 0) |} :: acc)
+      end
+  end.
+
+Fixpoint run_items (step : rstate -> item -> result rstate) (items : list item) (st : rstate) : result rstate :=
+  match items with
+  | [] => Ok st
+  | it :: rest => do st' <- step st it; run_items step rest st'
+  end.
+
+(* a file starts with a fresh condition stack, mute counter 0, its own FILE scope and the GLOBAL zone *)
+Definition file_init (fid : nat) : fstate := {| f_stack := []; f_mute := 0; f_scope := ScFile fid; f_zone := GLOBAL |}.
+
 Fixpoint load (fuel : nat) (cfg : config) (files : list (list item)) (fid : nat) (g : gstate)
   : result (gstate * list placed) :=
   match fuel with
@@ -133,92 +213,8 @@ Fixpoint load (fuel : nat) (cfg : config) (files : list (list item)) (fid : nat)
     match nth_error files fid with
     | None => Rejected
     | Some items =>
-      (fix go (items : list item) (g : gstate) (fs : fstate) (acc : list placed) : result (gstate * list placed) :=
-         match items with
-         | [] => Ok (g, rev acc)
-         | it :: rest =>
-           let active := currently_active (f_stack fs) in
-           match it with
-           | ICond d =>
-               let cs := {| st_sym := g_tab g; st_mute := f_mute fs; st_out := []; st_stack := f_stack fs |} in
-               match cstep cs d with
-               | Ok cs' =>
-                   go rest {| g_tab := st_sym table unit cs'; g_zones := g_zones g; g_labels := g_labels g;
-                              g_used := g_used g; g_region := g_region g |}
-                      {| f_stack := st_stack table unit cs'; f_mute := st_mute table unit cs';
-                         f_scope := f_scope fs; f_zone := f_zone fs |} acc
-               | Rejected => Rejected
-               | OutOfFuel => OutOfFuel
-               end
-           | ICreateZone n s e =>
-               if active then
-                 match create_zone (c_addr_bits cfg) (g_zones g) s e n with
-                 | Ok zs => go rest {| g_tab := g_tab g; g_zones := zs; g_labels := g_labels g;
-                                       g_used := g_used g; g_region := g_region g |} fs acc
-                 | Rejected => Rejected
-                 | OutOfFuel => OutOfFuel
-                 end
-               else go rest g fs acc
-           | IInclude target =>
-               if active then
-                 match target with
-                 | None => Rejected
-                 | Some t =>
-                     if in_nat t (g_used g) then Rejected else
-                     match load fu cfg files t {| g_tab := g_tab g; g_zones := g_zones g; g_labels := g_labels g;
-                                                  g_used := t :: g_used g; g_region := g_region g |} with
-                     | Ok (g', lines) => go rest g' fs (rev lines ++ acc)
-                     | Rejected => Rejected
-                     | OutOfFuel => OutOfFuel
-                     end
-                 end
-               else go rest g fs acc
-           | IStmt s =>
-               if negb active then go rest g fs acc else
-               (* zone of the line object: the current zone, or the zone named by .memzone / .org *)
-               let line_zone := match s with
-                                | SMemzone z => z
-                                | SOrg _ (Some z) => z
-                                | SOrg _ None => GLOBAL
-                                | _ => f_zone fs
-                                end in
-               match find_zone (g_zones g) line_zone with
-               | None => Rejected                                   (* unknown memory zone *)
-               | Some _ =>
-                 let '(scope', zone', region') :=
-                   match s with
-                   | SLabel n => match label_kind n with
-                                 | LkLocal => (f_scope fs, f_zone fs, g_region g)
-                                 | _ => (ScLocal fid (g_region g), f_zone fs, S (g_region g))
-                                 end
-                   | SOrg _ _ | SMemzone _ => (ScFile fid, line_zone, g_region g)
-                   | _ => (f_scope fs, f_zone fs, g_region g)
-                   end in
-                 let bad_name := match s with
-                                 | SLabel n | SConst n _ => is_register_name cfg n
-                                 | _ => false
-                                 end in
-                 if bad_name then Rejected else
-                 let labels' :=
-                   match s with
-                   | SConst n e =>
-                       do v <- eval_in cfg (g_labels g) (f_scope fs) e;
-                       set_label (c_keywords cfg) (g_labels g) scope' n v
-                   | _ => Ok (g_labels g)
-                   end in
-                 match labels' with
-                 | Ok ls' =>
-                     go rest {| g_tab := g_tab g; g_zones := g_zones g; g_labels := ls';
-                                g_used := g_used g; g_region := region' |}
-                        {| f_stack := f_stack fs; f_mute := f_mute fs; f_scope := scope'; f_zone := zone' |}
-                        ({| p_stmt := s; p_scope := scope'; p_zone := line_zone;
-                            p_muted := negb (Nat.eqb (f_mute fs) 0) |} :: acc)
-                 | Rejected => Rejected
-                 | OutOfFuel => OutOfFuel
-                 end
-               end
-           end
-         end) items g {| f_stack := []; f_mute := 0; f_scope := ScFile fid; f_zone := GLOBAL |} []
+        do r <- run_items (item_step cfg (load fu cfg files) fid) items (g, file_init fid, []);
+        let '(g', _, acc) := r in Ok (g', rev acc)
     end
   end.
 
